@@ -17,7 +17,8 @@ EXTENDS TexMachine, TexContract, Json
 
 CONSTANTS Scopes,     \* sequence of [w |-> set of words (Seq(Char)), n |-> maximal number of words per source]
           Sources,    \* set of complete sources (used instead of / besides the alphabet)
-          UserSkip    \* skip_envs option of every run
+          UserSkip,   \* skip_envs option of every run
+          DoB, DoC    \* BOOLEAN: perform the tolerant run / the re-parse run (a check that does not need one saves the states)
 
 VARIABLES scope, nwords, run, src0, resA, resB, devs
 svars == <<scope, nwords, run, src0, resA, resB, devs>>
@@ -46,12 +47,15 @@ StepM == /\ run \in {"A", "B", "C"} /\ MNext
                     THEN devs \cup {"BareArg"} ELSE devs
          /\ UNCHANGED <<scope, nwords, run, src0, resA, resB>>
 
+StartC == IF DoC /\ (IF run = "A" THEN outcome ELSE resA.o) = "ok"
+          THEN ResetRun(IF run = "A" THEN Out ELSE resA.out, 0, UserSkip) /\ run' = "C"
+          ELSE run' = "end" /\ UNCHANGED mvars
 NextRun ==
   /\ Terminal
-  /\ \/ /\ run = "A" /\ resA' = CurRes /\ ResetRun(src0, 1, UserSkip) /\ run' = "B" /\ UNCHANGED <<resB, src0, nwords, devs, scope>>
-     \/ /\ run = "B" /\ resB' = CurRes
-        /\ IF resA.o = "ok" THEN ResetRun(resA.out, 0, UserSkip) /\ run' = "C"
-           ELSE run' = "end" /\ UNCHANGED mvars
+  /\ \/ /\ run = "A" /\ resA' = CurRes
+        /\ IF DoB THEN ResetRun(src0, 1, UserSkip) /\ run' = "B" ELSE StartC
+        /\ UNCHANGED <<resB, src0, nwords, devs, scope>>
+     \/ /\ run = "B" /\ resB' = CurRes /\ StartC
         /\ UNCHANGED <<resA, src0, nwords, devs, scope>>
      \/ /\ run = "C" /\ run' = "end" /\ UNCHANGED <<mvars, resA, resB, src0, nwords, devs, scope>>
 
@@ -73,12 +77,12 @@ ResC == CurRes    \* valid when Final and resA.o = "ok"
 (***************************************************************************)
 C06_Diagnostic == OutcomeIsDiagnostic
 C06_StepBound == StepBound
-C07a_TolerantExtends == (Final /\ resA.o = "ok") => (resB.o = "ok" /\ resB.tree = resA.tree /\ resB.out = resA.out)
+C07a_TolerantExtends == (Final /\ DoB /\ resA.o = "ok") => (resB.o = "ok" /\ resB.tree = resA.tree /\ resB.out = resA.out)
 C07c_OnlyClosers == (Final /\ resB.o = "ok" /\ SC8) => OnlyClosersInserted(src0, resB.out)
 (* C07(b): every source of this run is a well-formed document (no math / verbatim / list region) that lost ONE closer *)
 C07b_CloserLossRepaired == (Final /\ src0 \in Sources) => (resA.o # "ok" /\ resB.o = "ok")
 C08_Conserves == (Final /\ resA.o = "ok" /\ SC8) => Conserves(src0, resA.out)
-C16_FixedPoint == (Final /\ resA.o = "ok" /\ SC16) =>
+C16_FixedPoint == (Final /\ DoC /\ resA.o = "ok" /\ SC16) =>
                     (ResC.o = "ok" /\ ResC.out = resA.out /\ AbsSeq(ResC.tree) = AbsSeq(resA.tree))
 C19_NonEmpty == NonEmptyTokens
 C19_TokPos == TokPosTrue
@@ -91,7 +95,7 @@ C17_LexDeterminism == LexDeterminism
 FlatT(ts) == [i \in 1..Len(ts) |-> <<N2S(ts[i].p), N2S(Len(ts[i].s)), ts[i].c>>]
 ResJ(r) == [o |-> r.o, out |-> r.out, flat |-> FlatSeq(r.tree), steps |-> r.steps]
 Rec == [i |-> src0, A |-> ResJ(resA), B |-> ResJ(resB),
-        C |-> IF resA.o = "ok" THEN ResJ(ResC) ELSE ResJ(NoRes),
+        C |-> IF DoC /\ resA.o = "ok" THEN ResJ(ResC) ELSE ResJ(NoRes),
         toks |-> FlatT(resA.toks), sc8 |-> SC8, sc16 |-> SC16]
 Dump == Final => PrintT(ToJson(Rec))
 
